@@ -8,7 +8,7 @@ from vlib.wsgi import make_environ, call_app
 
 ID = 'C14'
 LEVEL = 'exploration'
-RULE = ('case = header program: object kind (Response / HTTPResponse / HTTPError built directly, or app.response / returned HTTPResponse '
+RULE = ('case = header program (values incl. int / float / str subclasses whose text is a label; a stored value read and written back; the response emitted through copy()): object kind (Response / HTTPResponse / HTTPError built directly, or app.response / returned HTTPResponse '
         'through Ombott.__call__), status from {200,201,204,206,304,404,500} set before or after, 1-6 operations (entry point in '
         '{headers[k]=v, append, setdefault, content_type=, content_length=, expires=, constructor headers dict / pair list / keyword / HeaderDict instance filled through its own constructor or update(); values appended to a COPY of the header dict must not be emitted}, '
         'canonical-case name incl. every entity header of the 204/304 blacklists, value). Values: clean text (ASCII, Latin-1, BMP, astral), '
@@ -57,6 +57,8 @@ VALUE = st.one_of(
     st.floats(allow_nan=True, allow_infinity=True).map(lambda f: ['float', f]),
     st.booleans().map(lambda b: ['bool', b]),
     st.just(['none', None]),
+    # subclasses of the accepted scalar types: what is emitted is str(value), whatever the base type's digits would be
+    st.one_of(_clean, _inject()).map(lambda t: ['intsub', [7, t]]), st.one_of(_clean, _inject()).map(lambda t: ['floatsub', [2.5, t]]), st.one_of(_clean, _inject()).map(lambda t: ['strsub', t]),
     st.sampled_from([b'bytes', b'a\r\nb']).map(lambda b: ['bytes', b]),
     st.sampled_from([['list', ['a', 'b']], ['list', ['a\r\nX: y']], ['tuple', ['a', 'b']], ['dict', {'a': 'b'}]]),
 )
@@ -64,7 +66,7 @@ VALUE = st.one_of(
 _ctext = st.one_of(st.sampled_from(['v', 'a b', 'a;b', 'a,b', 'é', 'a\\b', '', 'abc\r\nX-Injected:1', 'a\rb', 'a\nb', 'a\0b', '\r\n', 'x\r\n y', 'Set-Cookie:\nz=1', '\x7f', '\x1f']),
                    st.text(st.characters(max_codepoint=255), max_size=10))
 COOKIE_VALUE = st.builds(lambda t, q: [t, '"' + t + '"', '"' + t, t + '"', '""' + t + '""', "'" + t + "'"][q], _ctext, st.integers(0, 5))
-ENTRY = st.sampled_from(['setitem', 'setitem', 'append', 'append', 'append', 'setdefault', 'content_type', 'content_length', 'expires', 'copy_then_append'])
+ENTRY = st.sampled_from(['setitem', 'setitem', 'append', 'append', 'append', 'setdefault', 'content_type', 'content_length', 'expires', 'copy_then_append', 'read_write_back'])
 CTOR = st.sampled_from(['ctor_dict', 'ctor_pairs', 'ctor_kw', 'ctor_hd'])
 
 
@@ -82,13 +84,38 @@ def case_st(draw):
     if draw(st.integers(0, 3)) == 0:
         ops.insert(draw(st.integers(0, len(ops))), ['set_cookie', draw(st.sampled_from(['c', 'sid'])), ['str', draw(COOKIE_VALUE)]])
     return {'kind': kind, 'status': draw(st.sampled_from([200, 200, 201, 204, 204, 206, 304, 304, 404, 500])),
-            'status_first': draw(st.booleans()), 'ops': ops}
+            'status_first': draw(st.booleans()), 'ops': ops, 'via_copy': draw(st.integers(0, 3)) == 0}
+
+
+class _IntLabel(int):
+    """A number whose text is a label (what an enum member or a domain type may be): the header setters see an int, the wire sees str(value)."""
+    label = ''
+
+    def __str__(self):
+        return self.label
+
+
+class _FloatLabel(float):
+    label = ''
+
+    def __str__(self):
+        return self.label
+
+
+class _StrSub(str):
+    pass
 
 
 def _mk(v):
     t, x = v
     if t == 'tuple':
         return tuple(x)
+    if t in ('intsub', 'floatsub'):
+        o = (_IntLabel if t == 'intsub' else _FloatLabel)(x[0])
+        o.label = x[1]
+        return o
+    if t == 'strsub':
+        return _StrSub(x)
     return x
 
 
@@ -115,6 +142,11 @@ class Model:
         """Update the model with the observed outcome; raise CheckFailure if the outcome itself is wrong."""
         if entry == 'copy_then_append':
             return          # whatever happened to the copy (accepted or refused), the response's own headers are as before
+        if entry == 'read_write_back':
+            # headers[name] = headers[name]: the value read (the last one) passes through the setter a second time and replaces the others
+            if not raised and name in self.h:
+                self.h[name] = [self.h[name][-1]]
+            return
         if entry == 'set_cookie':
             # not one of the single-value setters: it may accept (and escape) or reject; only what is EMITTED under Set-Cookie is judged
             if not raised:
@@ -183,6 +215,8 @@ def _do(obj, entry, name, v):
         obj.expires = val
     elif entry == 'set_cookie':
         obj.set_cookie(name, val)
+    elif entry == 'read_write_back':
+        obj.headers[name] = obj.headers[name]
     elif entry == 'copy_then_append':
         # a copy of the header dict is taken and a value appended to THE COPY: the response itself must not emit it
         c = obj.headers.copy()
@@ -341,6 +375,15 @@ def check_case(ctx, case):
             _run_ops(obj, rest, model)
             if not case['status_first'] or kind == 'Response':
                 obj.status = status
+            if case.get('via_copy'):
+                # what is emitted is a copy of the response (what redirect() and error handlers work on): every stored value passes through the
+                # constructor / setters a second time
+                try:
+                    obj = obj.copy(cls=ombott.HTTPResponse)          # (the form redirect() uses; the default cls is not constructible)
+                    ctx.count('emitted_through_a_copy_of_the_response')
+                except Exception:
+                    # (on the unchanged tree copy() refuses a response holding a multi-valued header; nothing is emitted then, which the property allows)
+                    ctx.count('copy_of_the_response_refused(unjudged)')
             try:
                 hl = obj.headerlist
             except Exception as e:
@@ -636,6 +679,22 @@ def run(ctx):
                 ops = [['append', 'Vary', ['str', 'v%d' % i]] for i in range(nvals)] + [['copy_then_append', 'Vary', ['str', 'only-on-the-copy']], ['append', 'Vary', ['str', 'last']]]
                 ctx.guarded(check_case, {'kind': kind, 'status': 200, 'status_first': True, 'ops': ops})
         ctx.count('headerdict_instance_and_copy_grid')
+        # a stored value that passes through a setter a second time (read and written back; the whole response copied), and subclasses of the scalar types
+        for txt in ('v', 'é', 'Ω', 'Ã©', '日本'):
+            for kind in ('Response', 'HTTPResponse', 'HTTPError', 'wsgi_response', 'wsgi_returned'):
+                for via_copy in (False, True):
+                    for ops in ([['setitem', 'X-Test', ['str', txt]], ['read_write_back', 'X-Test', ['none', None]]],
+                                [['append', 'X-Test', ['str', 'first']], ['append', 'X-Test', ['str', txt]], ['read_write_back', 'X-Test', ['none', None]], ['read_write_back', 'X-Test', ['none', None]]],
+                                [['setitem', 'X-Test', ['str', txt]]]):
+                        ctx.guarded(check_case, {'kind': kind, 'status': 200, 'status_first': True, 'ops': ops, 'via_copy': via_copy})
+        for t in ('intsub', 'floatsub', 'strsub'):
+            for txt in ('v', 'é', 'a\r\nX: y', 'a\nb', '\0', '\r'):
+                for e in ('setitem', 'append', 'setdefault', 'content_length', 'content_type', 'ctor_kw', 'ctor_dict'):
+                    for kind in ('Response', 'HTTPResponse', 'wsgi_returned'):
+                        if e.startswith('ctor_') and kind == 'Response':
+                            continue
+                        ctx.guarded(check_case, {'kind': kind, 'status': 200, 'status_first': True, 'ops': [[e, 'Xtest' if e == 'ctor_kw' else 'X-Test', [t, txt if t == 'strsub' else [7, txt]]]]})
+        ctx.count('second_pass_and_scalar_subclass_grid')
     n = 4000 if ctx.tier == 'quick' else 40000
     ctx.hyp(case_st(), check_case, n)
 
